@@ -1,4 +1,4 @@
-"""C12 - factorisation, primality and modular helpers  (I: relational proof of three helpers; W: type-level witnesses)
+"""C12 - factorisation, primality and modular helpers  (I: relational proofs of the modular helpers, typestate rule; W: type-level witnesses)
 
 What is DECIDED here, and what is not (DESIGN.md 3.12):
   proof        add_mod, sub_mod, half_mod_odd: for ALL 64-bit operands that satisfy the documented
@@ -6,6 +6,12 @@ What is DECIDED here, and what is not (DESIGN.md 3.12):
                lies in [0, n) and is congruent to a+b / a-b / a*2^-1 (linear relational analysis with
                path partitioning, vlib/linrel.py).  add_mod is proved under the WEAKER precondition
                a <= n, which is what mul_mod's own call relies on (chunk_result may equal n).
+               mul_mod: the full inductive argument for ALL operand triples with a < n, b < n - no wrap
+               and no division by zero, the recursive call meets the same precondition with a strictly
+               smaller first operand, the result lies in [0, n) and result - a*b is a polynomial multiple
+               of n (products and quotients as axiomatised terms, see vlib/linrel.py).
+               pow_mod (n >= 2): an inferred loop invariant makes every mul_mod call meet its
+               precondition and bounds the result (that it is base^exp is NOT decided).
   exploration  the statement's consequence clause, which is about TYPES: decltype(mag<N>()) is the
                canonical factorisation, mag<a>() * mag<b>() is mag<a*b>(), Prime<N> of a composite N
                is refused - as programs that must / must not build, for adversarial and seeded N whose
@@ -34,6 +40,11 @@ LUCAS_PSP = [5459, 5777, 10877, 16109, 18971, 22499, 24569, 25199, 40309, 58519,
              155819, 158399, 161027, 162133, 176399, 176471, 189419, 192509, 197801, 224369, 230691, 231703, 243629, 253259]
 CARMICHAEL = [561, 1105, 1729, 2465, 2821, 6601, 8911, 10585, 15841, 29341, 41041, 46657, 52633, 62745, 63973, 75361, 101101,
               115921, 126217, 162401, 172081, 188461, 252601, 9746347772161, 17236801, 232250619601]
+
+
+WRAP_COINCIDENCE_PRIMES = [10785637507345693793]
+WRAP_COINCIDENCE_COMPOSITES = [10685528935143053617, 12673371479969681361, 3705102001104354505, 15405458870843798969, 9425997995154109105,
+                               11837406317022473153, 10479697266598077369, 6889858086595868265]
 
 
 def small_factor(n):
@@ -159,7 +170,283 @@ def relational(ctx):
             ctx.require(r1["paths"] == 2 and r2["paths"] == 2 and paths == 2, "unexpected path counts %s" % [r1["paths"], r2["paths"], paths])
     except linrel.Failure as e:
         raise AnalysisBroken("modular helpers are outside the linear fragment: %s" % e)
+    o2, d2, p2 = relational_mul_pow(ctx, report)
+    return nob + o2, ndis + d2, npaths + p2
+
+
+MUL_MOD = "_ZN2au6detail7mul_modEmmm"
+
+
+def _loc(mod, node):
+    ch = mod.loc_chain(node.dbg) if getattr(node, "dbg", None) else []
+    return ", inlined at ".join("%s:%s" % (f.split("/au/code/")[-1], l) for f, l in ch) or "?"
+
+
+def relational_mul_pow(ctx, report):
+    """mul_mod: the full inductive argument (all operand triples with a < n, b < n).
+         no wrap      every unsigned operation that contributes to the result stays in [0, 2^64), no
+                      division by zero
+         recursion    the recursive call's operands satisfy the same precondition, with the same
+                      modulus and a strictly smaller first operand (so the recursion ends)
+         range        the result lies in [0, n), given that of the recursive call (induction hypothesis)
+         congruence   result - a*b is a polynomial multiple of n once the recursive result is
+                      replaced by the product of its operands (hypothesis) and every quotient q = x div y
+                      by its definition (remainder = x - q*y)
+       pow_mod (n >= 2): an invariant over the loop's phi values is INFERRED (candidates v < n for each
+       phi, those not established on entry or not preserved by an arbitrary iteration are dropped until
+       the set is inductive) and must make every mul_mod call inside the loop meet its precondition
+       and put the returned value in [0, n).  (That the value is base^exp is not decided.)"""
+    from vlib import loops
+    src = ('#include <cstdint>\n#include "au/utility/mod.hh"\n'
+           'extern "C" uint64_t mm(uint64_t a, uint64_t b, uint64_t n) { return au::detail::mul_mod(a, b, n); }\n'
+           'extern "C" uint64_t pm(uint64_t a, uint64_t b, uint64_t n) { return au::detail::pow_mod(a, b, n); }\n')
+    ll, err = ir.build_ir(ctx, src, "c12mul")
+    if not ll:
+        raise AnalysisBroken("mul_mod / pow_mod wrappers do not compile: %s" % err[-400:])
+    mod = ir.parse_module(ll, only=lambda n: n in ("mm", "pm", MUL_MOD))
+    if MUL_MOD not in mod.funcs or not getattr(mod.funcs[MUL_MOD], "blocks", None):
+        raise AnalysisBroken("mul_mod is not a function of its own in the IR (recursion expected to stay a call)")
+    a, b, n = var("p0"), var("p1"), var("p2")
+
+    def rng(v):
+        return [-var(v), var(v) - K(MAX)]
+
+    def summary(own_first, calls):
+        def f(w, C, args, node):
+            x, y, m = args
+            w.need(C, x - m + K(1), "call of mul_mod: first operand not below the modulus", node)
+            w.need(C, y - m + K(1), "call of mul_mod: second operand not below the modulus", node)
+            if own_first is not None:
+                w.need(C, x - own_first + K(1), "recursive call of mul_mod: first operand does not decrease (termination)", node)
+                w.obligations += 1
+                if m != n:
+                    w.failures.append(("recursive call of mul_mod with another modulus", node, list(C)))
+            r = w.result_of(node.attr, args)
+            calls[list(r.co)[0]] = args
+            return C + [-r, r - m + K(1)], r
+        return f
+
+    nob = ndis = npaths = 0
+    try:
+        # ---- mul_mod
+        pre = rng("p0") + rng("p1") + rng("p2") + [a - n + K(1), b - n + K(1)]
+        d = dag.build(mod.funcs[MUL_MOD], mod)
+        w = linrel.Walker(pre)
+        calls = {}
+        w.summaries[MUL_MOD] = summary(a, calls)
+        fails = []
+        paths = 0
+        for C, r in w.value(d.ret, list(pre)):
+            paths += 1
+            w.obligations += 3
+            if not (entails_le0(C, r - n + K(1)) and entails_le0(C, -r)):
+                fails.append(("result is outside [0, n)", "on the path with result %r" % r))
+            subst = {rv: linrel.expand(w, x) * linrel.expand(w, y) for rv, (x, y, m) in calls.items()}
+            p = linrel.expand(w, r, subst) - linrel.Poly.atom("p0") * linrel.Poly.atom("p1")
+            rest = p.without_multiples_of("p2")
+            if not p.integral() or rest.t:
+                fails.append(("result is not congruent to a*b modulo n", "on the path with result %r: result - a*b = %r, of which %r is not a multiple of n" % (r, p, rest)))
+        for what, node, _ in w.failures:
+            fails.append((what, "at %s (%s)" % (node.pretty()[:120], _loc(mod, node))))
+        report("mul_mod", sorted(set(fails)))
+        ctx.require(paths >= 3 and w.ncalls >= 1, "mul_mod: %d paths, %d recursive call sites analysed (expected the fast path and the chunked path)" % (paths, w.ncalls))
+        nob += w.obligations
+        ndis += w.obligations - len(set(fails))
+        npaths += paths
+        # ---- pow_mod
+        f = mod.funcs["pm"]
+        cut = loops.CutLoop(f)
+        pre = rng("p0") + rng("p1") + rng("p2") + [K(2) - n]
+        phi_vars = [var("p%d" % cut.phi_param_index(i)) for i in range(len(cut.phis))]
+        cand = set(range(len(cut.phis)))  # candidate invariant: phi_i < n
+        fails = []
+
+        def inv(S):
+            out = []
+            for i in range(len(cut.phis)):
+                out += [-phi_vars[i], phi_vars[i] - K(MAX)]
+                if i in S:
+                    out.append(phi_vars[i] - n + K(1))
+            return out
+
+        def run(func, C0, goal):
+            """-> (ok for all paths, walker)"""
+            dd = dag.build(func, mod)
+            ww = linrel.Walker(C0)
+            ww.summaries[MUL_MOD] = summary(None, {})
+            ok = True
+            np_ = 0
+            for C, r in ww.value(dd.ret, list(C0)):
+                np_ += 1
+                if goal is not None and not goal(C, r):
+                    ok = False
+            return ok, ww, np_
+
+        for i in sorted(cand):
+            for fn in cut.entry_value(i):
+                ok, ww, _ = run(fn, pre, lambda C, r: entails_le0(C, r - n + K(1)))
+                if not ok:
+                    cand.discard(i)
+        changed = True
+        while changed:
+            changed = False
+            for i in sorted(cand):
+                for fn in cut.step_value(i):
+                    ok, ww, _ = run(fn, pre + inv(cand), lambda C, r: entails_le0(C, r - n + K(1)))
+                    if not ok:
+                        cand.discard(i)
+                        changed = True
+        # with the inductive invariant: every operation / call of one iteration, and the result after the loop
+        pw_ob = 0
+        for i in range(len(cut.phis)):
+            for fn in cut.entry_value(i) + cut.step_value(i):
+                ok, ww, np_ = run(fn, pre + (inv(cand) if fn.params != f.params else []), None)
+                pw_ob += ww.obligations
+                npaths += np_
+                for what, node, _ in ww.failures:
+                    fails.append((what, "at %s (%s)" % (node.pretty()[:120], _loc(mod, node))))
+        ok, ww, np_ = run(cut.after_loop(), pre + inv(cand), lambda C, r: entails_le0(C, r - n + K(1)) and entails_le0(C, -r))
+        pw_ob += ww.obligations + 1
+        npaths += np_
+        if not ok:
+            fails.append(("result is outside [0, n)", "after the loop, under the inferred invariant {%s}" % ", ".join("%%%s < n" % cut.phis[i].res for i in sorted(cand))))
+        for what, node, _ in ww.failures:
+            fails.append((what, "at %s" % node.pretty()[:120]))
+        report("pow_mod", sorted(set(fails)))
+        ctx.require(len(cut.phis) == 3, "pow_mod: %d loop-carried values (expected exponent, base, result)" % len(cut.phis))
+        ctx.log("pow_mod: inferred loop invariant {%s} over %d loop-carried values" % (", ".join("%%%s < n" % cut.phis[i].res for i in sorted(cand)), len(cut.phis)))
+        nob += pw_ob
+        ndis += pw_ob - len(set(fails))
+    except linrel.Failure as e:
+        raise AnalysisBroken("mul_mod / pow_mod are outside the fragment of the relational engine: %s" % e)
+    except MemoryError as e:
+        raise AnalysisBroken("mul_mod / pow_mod: %s" % e)
     return nob, ndis, npaths
+
+
+def product_rule(ctx):
+    """No product of two unbounded run-time values outside mul_mod.
+
+    The library's own discipline in this call tree is that residues are multiplied by mul_mod (proved
+    above); a raw `x * y` of two 64-bit run-time values wraps modulo 2^64, and a wrapped value compared
+    with, or handed on as, an exact one is a wrong answer for the operands that make it coincide.
+    On the IR of everything reachable from is_prime / find_prime_factor / multiplicity (no inlining):
+    every integer multiplication (and left shift) has a constant operand, or an operand in {-1, 0, 1}
+    (a sign), or two operands whose widths before extension add up to at most the result's width
+    (table entries, narrow counters), or sits in mul_mod.  Anything else is reported with its line."""
+    import os
+    import re as _re
+    from vlib import cxx
+    wd = ctx.sub("PR")
+    src = os.path.join(wd, "tree.cc")
+    with open(src, "w") as f:
+        f.write('#include <cstdint>\n#include "au/utility/factoring.hh"\n#include "au/utility/probable_primes.hh"\n#include "au/utility/mod.hh"\n'
+                'extern "C" bool root_is_prime(std::uint64_t n) { return au::detail::is_prime(n); }\n'
+                'extern "C" std::uint64_t root_fpf(std::uint64_t n) { return au::detail::find_prime_factor(n); }\n'
+                'extern "C" std::uint64_t root_mult(std::uint64_t a, std::uint64_t b) { return au::detail::multiplicity(a, b); }\n'
+                'extern "C" std::uint64_t root_pow(std::uint64_t a, std::uint64_t b, std::uint64_t n) { return au::detail::pow_mod(a, b, n); }\n')
+    raw, out = os.path.join(wd, "tree.raw.ll"), os.path.join(wd, "tree.ll")
+    rc, so, se = cxx.run(["clang++", "-std=c++14", "-I" + ir.AU_INC, "-g", "-O1", "-Xclang", "-disable-llvm-passes", "-S", "-emit-llvm", "-w", src, "-o", raw])
+    if rc != 0:
+        raise AnalysisBroken("primality call-tree unit does not compile: %s" % se[-300:])
+    rc, so, se = cxx.run(["opt-14", "-S", "-passes=function(sroa,simplifycfg,lowerswitch)", raw, "-o", out])
+    if rc != 0:
+        raise AnalysisBroken("opt failed on the primality call-tree unit: %s" % se[-300:])
+    mod = ir.parse_module(out, only=lambda n: True)
+    roots = [r for r in ("root_is_prime", "root_fpf", "root_mult", "root_pow") if r in mod.funcs]
+    ctx.require(len(roots) == 4, "call-tree roots missing from the IR: %s" % roots)
+    reach, todo = set(), list(roots)
+    while todo:
+        fnm = todo.pop()
+        if fnm in reach or fnm not in mod.funcs or not getattr(mod.funcs[fnm], "blocks", None):
+            continue
+        reach.add(fnm)
+        for _, i in mod.funcs[fnm].instrs():
+            if i.op == "call" and i.callee:
+                todo.append(i.callee)
+    lib = sorted(f for f in reach if not f.startswith("root_"))
+    ctx.require(len(lib) >= 15 and any("baillie_psw" in f for f in lib) and any("is_perfect_square" in f for f in lib) and MUL_MOD in lib,
+                "call tree of is_prime / find_prime_factor has only %d functions: %s" % (len(lib), lib))
+    WIDTH = {"i1": 1, "i8": 8, "i16": 16, "i32": 32, "i64": 64}
+    fails = []
+    seen = accounted = 0
+    for fnm in lib:
+        fn = mod.funcs[fnm]
+        defs = {i.res: i for _, i in fn.instrs() if i.res is not None}
+
+        def bits(o, depth=0):
+            """upper bound on the number of significant bits of operand o (None: its full width), or 'unit'"""
+            if getattr(o, "kind", None) == "c":
+                return ("const", o.v)
+            if getattr(o, "kind", None) != "v" or o.v not in defs or depth > 8:
+                return ("var", WIDTH.get(getattr(o, "ty", None), 64))
+            d = defs[o.v]
+            if d.op in ("zext",):
+                inner = bits(d.args[0], depth + 1)
+                src_w = WIDTH.get(d.src_ty or getattr(d.args[0], "ty", None), 64)
+                if src_w == 1:
+                    return ("unit", 1)
+                return inner if inner[0] in ("const", "unit") else ("var", min(inner[1], src_w))
+            if d.op == "sext":
+                inner = bits(d.args[0], depth + 1)
+                return inner if inner[0] in ("const", "unit") else ("var", WIDTH.get(d.ty, 64))
+            if d.op == "select":
+                a, b = bits(d.args[1], depth + 1), bits(d.args[2], depth + 1)
+                if all(x[0] == "const" and x[1] in (-1, 0, 1) or x[0] == "unit" for x in (a, b)):
+                    return ("unit", 1)
+                if all(x[0] in ("const", "unit") for x in (a, b)):
+                    return ("var", max(int(abs(x[1])).bit_length() if x[0] == "const" else 1 for x in (a, b)))
+                return ("var", max(x[1] if x[0] == "var" else 1 for x in (a, b)))
+            if d.op == "call" and d.callee and "bool_sign" in d.callee:
+                return ("unit", 1)
+            if d.op == "load":
+                w = WIDTH.get(d.ty, 64)
+                return ("var", w)
+            if d.op in ("and",):
+                a, b = bits(d.args[0], depth + 1), bits(d.args[1], depth + 1)
+                for x in (a, b):
+                    if x[0] == "const" and x[1] >= 0:
+                        return ("var", int(x[1]).bit_length())
+            return ("var", WIDTH.get(d.ty, 64))
+
+        for _, i in fn.instrs():
+            if i.op not in ("mul", "shl") or i.ty not in WIDTH:
+                continue
+            seen += 1
+            w = WIDTH[i.ty]
+            a, b = bits(i.args[0]), bits(i.args[1])
+            ok = False
+            if i.op == "mul":
+                if a[0] in ("const", "unit") or b[0] in ("const", "unit"):
+                    # constant factor: the other operand's bound must leave room for it
+                    k = a if a[0] == "const" else b if b[0] == "const" else None
+                    o = b if k is a else a
+                    if k is None or abs(k[1]) <= 1:
+                        ok = True
+                    elif o[0] == "var" and o[1] + int(abs(k[1])).bit_length() <= w:
+                        ok = True
+                    elif fnm != MUL_MOD:
+                        # x * constant with x of full width: accepted only where x is a counter that the
+                        # code doubles under its own bound (recorded, not proved)
+                        ok = "recorded"
+                elif a[1] + b[1] <= w:
+                    ok = True
+            else:
+                ok = a[0] == "const" or (b[0] == "const" and a[0] == "var" and a[1] + b[1] <= w)
+            if fnm == MUL_MOD:
+                ok = True  # every product in mul_mod is an obligation of the relational proof
+            if ok:
+                accounted += 1
+                if ok == "recorded":
+                    ctx.assumptions.append("%s: `%s` multiplies a full-width value by a constant (not shown to stay below 2^%d; a search bound, not a residue)" % (_re.sub(r"^_ZN2au6detail\d+", "", fnm)[:40], i.raw.strip().split(", !dbg")[0], w))
+            else:
+                loc = ", inlined at ".join("%s:%s" % (f.split("/au/code/")[-1], l) for f, l in mod.loc_chain(i.dbg)) if i.dbg else "?"
+                fails.append("%s at %s: `%s` - a product of two run-time values of %d and %d significant bits in a %d-bit type, outside mul_mod: it wraps modulo 2^%d for large operands and the wrapped value is used as if exact"
+                             % (_re.sub(r"^_ZN2au6detail\d+", "", fnm)[:50], loc, i.raw.strip().split(", !dbg")[0], a[1], b[1], w, w))
+    ctx.require(seen >= 4, "only %d multiplications found in the call tree (mul_mod alone has four)" % seen)
+    for fmsg in fails:
+        ctx.violation("product:" + fmsg.split(":")[0] + fmsg.split("`")[1][:40], fmsg)
+    return dict(functions=len(lib), multiplications=seen, accounted=accounted, failures=len(fails))
 
 
 def typestate_rule(ctx):
@@ -339,8 +626,10 @@ def body(ctx):
     rnd = random.Random(ctx.seed)
     configs = cxx.configs_for(ctx.tier)
     nob, ndis, npaths = relational(ctx)
-    ctx.log("relational: %d obligations over %d paths of add_mod / sub_mod / half_mod_odd, %d discharged" % (nob, npaths, ndis))
+    ctx.log("relational: %d obligations over %d paths of add_mod / sub_mod / half_mod_odd / mul_mod / pow_mod, %d discharged" % (nob, npaths, ndis))
     ts = typestate_rule(ctx)
+    pr = product_rule(ctx)
+    ctx.log("product rule: %s" % pr)
     ctx.log("typestate: %s" % ts)
 
     # ---- W: adversarial numbers
@@ -359,11 +648,24 @@ def body(ctx):
     for _ in range(8 if ctx.thorough else 4):
         p = next_prime(p + 1)
         primes.add(p)
+    # primes for which a 64-bit product inside a square test coincides with the number itself:
+    # (a) n whose Newton iterate c (> 2^32) squares to n modulo 2^64 (found by solving c^2 = n mod 2^64
+    #     2-adically for the j-th iterate; F-18), (b) n = k*2^33 + 1, for which ((n+1)/2)^2 = n mod 2^64
+    primes.update(WRAP_COINCIDENCE_PRIMES)
+    k = 0
+    found = 0
+    while found < (6 if ctx.thorough else 3):
+        k += 1
+        for e in (33, 41, 57):
+            n = k * 2 ** e + 1
+            if n <= MAX and model.is_prime(n) and n not in primes:
+                primes.add(n)
+                found += 1
     primes.update([2, 3, 5, 7, 97, 541, 547, 7919, 104729, 2147483647, 2305843009213693951, 18446744073709551557, 18446744073709551533])
     for _ in range(30 if ctx.thorough else 8):
         primes.add(next_prime(rnd.randrange(2 ** 40, 2 ** 64 - 10 ** 6) | 1))
     composites = {}
-    for n in PSP2 + LUCAS_PSP + CARMICHAEL:
+    for n in PSP2 + LUCAS_PSP + CARMICHAEL + WRAP_COINCIDENCE_COMPOSITES:
         composites[n] = small_factor(n)
     near = [prev_prime(2 ** 16), next_prime(2 ** 16), prev_prime(2 ** 31), next_prime(2 ** 31), prev_prime(2 ** 32), next_prime(2 ** 32)]
     for p in near:
@@ -473,12 +775,12 @@ def body(ctx):
     ctx.log("W: %d items (%d primes, %d composites), %d mismatching" % (len(items), len(primes), len(composites), nbad))
     ctx.coverage.update(dict(
         evaluations=len(items) * len(configs) + nob, distinct_nontrivial=len(items) + nob,
-        rule="proof part: every path of add_mod / sub_mod / half_mod_odd under the documented preconditions (add_mod under the weaker a <= n), obligations = no unsigned wrap of a contributing operation, result in [0, n), result congruent to the exact value; exploration part: one witness program per prime / composite N (decltype(mag<N>()) against a factorisation computed with Python integers), products mag<a>*mag<b> == mag<a*b>, Prime<N> refused for every tabulated pseudoprime / Carmichael number; no function value is asserted directly",
+        rule="proof part: every path of add_mod / sub_mod / half_mod_odd under the documented preconditions (add_mod under the weaker a <= n), obligations = no unsigned wrap of a contributing operation, result in [0, n), result congruent to the exact value; mul_mod by induction over its recursion (no wrap, no division by zero, recursive precondition with a strictly smaller first operand, result in [0, n), result - a*b a polynomial multiple of n), with products and quotients by non-constants as terms constrained by axioms of non-negative integer arithmetic; pow_mod under n >= 2 with an inferred inductive loop invariant (every mul_mod call meets its precondition, result in [0, n)); exploration part: one witness program per prime / composite N (decltype(mag<N>()) against a factorisation computed with Python integers), products mag<a>*mag<b> == mag<a*b>, Prime<N> refused for every tabulated pseudoprime / Carmichael number; no function value is asserted directly",
         samples=[dict(key=items[0].key, code=items[0].code), dict(key=items[len(primes)].key, code=items[len(primes)].code)],
-        exhaustive=False, typestate=ts, relational_obligations=nob, relational_discharged=ndis, relational_paths=npaths,
+        exhaustive=False, typestate=ts, product_rule=pr, relational_obligations=nob, relational_discharged=ndis, relational_paths=npaths,
         primes=len(primes), composites=len(composites), w_items=len(items), w_mismatches=nbad, witnesses_over_budget=len(budget),
         configs=[c.name for c in configs], engine_stats=stats,
-        not_decided="is_prime / find_prime_factor / mul_mod / pow_mod for every 64-bit input: sampled on adversarial and seeded inputs only"))
+        not_decided="is_prime / find_prime_factor for every 64-bit input and the VALUE of pow_mod (base^exp): sampled on adversarial and seeded inputs only"))
     ctx.assumptions += ["the factorisations, residues and pseudoprime tables used as expected answers come from Python integer arithmetic and deterministic Miller-Rabin (vlib/model.py), cross-checked by re-multiplying"]
 
 
